@@ -1,9 +1,9 @@
 /- C40 driver:
    `C40 accept [ev,…]` → `ok T <final-state summary>` | `ok F <index of the first rejected event> <state summary before it>`
-   `C40 spec <k> [ev,…]` → `ok alternates [lostR…] [lostW…] closeOk`
+   `C40 spec <k> [ev,…]` → `ok alternates [lostR…] [lostW…] closeOk inSelect` (inSelect: at the moment `close()` begins / at the end)
    events: [start,[r],[w]] [addReader,fd] [addWriter,fd] [removeReader,fd,T|F] [removeWriter,fd,T|F] [wake]
            [handleBegin,[r],[w]] [dispatch,R|W,fd] [consume,n] [post,[r],[w]] [setClosing] [joined] [closed]
-           [ready,R|W,fd] [unready,R|W,fd] [take,[r],[w]] [sexit] [selected,[r],[w]] [report,[r],[w]] -/
+           [ready,R|W,fd] [unready,R|W,fd] [take,[r],[w]] [sexit] [selected,[r],[w]] [report,[r],[w]] [ebadf] -/
 import TornadoModel.Base.Wire
 import TornadoModel.C40.Spec
 namespace TornadoModel.C40.Drv
@@ -36,6 +36,7 @@ def decEv (v : V) : Option Ev := do
   | [.atom "unready", k, fd] => pure (.unready (← isW k) (← fd.nat?))
   | [.atom "take", r, w] => pure (.take (← sets r w))
   | [.atom "sexit"] => pure .sexit
+  | [.atom "ebadf"] => pure .ebadf
   | [.atom "selected", r, w] => pure (.selected (← sets r w))
   | [.atom "report", r, w] => pure (.report (← sets r w))
   | _ => none
@@ -75,7 +76,8 @@ def handle (toks : List String) : String :=
       match k.nat?, evs.list? >>= (·.mapM decEv) with
       | some k, some evs =>
         let l := Spec.lost k evs
-        ok [V.ofBool (Spec.alternates .none evs), encNats l.1, encNats l.2, V.ofBool (Spec.closeOk evs)]
+        ok [V.ofBool (Spec.alternates .none evs), encNats l.1, encNats l.2, V.ofBool (Spec.closeOk evs),
+            V.ofBool (Spec.inSelect false (evs.takeWhile (· != .setClosing)))]
       | _, _ => err "bad-event"
     | _ => err "bad-cmd"
 
